@@ -261,6 +261,12 @@ def mentions_visibility(db, fn, e):
 
 
 def run(ctx):
+    _run(ctx)
+    from . import _worker
+    _worker.identity_refresh(ctx, "doc")
+
+
+def _run(ctx):
     db = ctx.db
     ctx.explanation = (
         "Decides structurally (SEND rule): every Outbox send site in radicle-node is enumerated; sends whose message is or "
